@@ -5,7 +5,7 @@ import vcommon as v
 import crashengine as ce
 
 PROP = "C10"
-INV = ["AtAckJournalClear", "AtAckLayout", "MetaMatches", "NoUnknownRegion", "RecConforms"]
+INV = ["AtAckJournalClear", "AtAckLayout", "MetaMatches", "NoUnknownRegion", "RecConforms", "JournalImagesValid"]
 
 
 def run(tier, seed):
